@@ -363,6 +363,51 @@ func (env *ExprEnv) callExpr(e *ast.CallExpr) Val {
 		}
 		t.regArray(prefix+".v", "(Array Int Int)")
 		return Val{K: KRef, S: sApp("select", t.lookup(env.st, prefix+".v"), x.S)}
+	case "atomval_bool", "atomval_int": // content of the atomic.Bool / atomic.Int32 cell p points to
+		x := arg(0)
+		pre := "sync/atomic.Bool"
+		if fname == "atomval_int" {
+			pre = "sync/atomic.Int32"
+		}
+		if x.Loc != nil {
+			pre = x.Loc.Prefix
+		}
+		if fname == "atomval_bool" {
+			t.regArray(pre+".v#b", "(Array Int Bool)")
+			return boolVal(sApp("select", t.lookup(env.st, pre+".v#b"), x.S))
+		}
+		t.regArray(pre+".v", "(Array Int Int)")
+		return intVal(sApp("select", t.lookup(env.st, pre+".v"), x.S))
+	case "nsends": // sends performed on ch by the verified thread since entry
+		c := arg(0)
+		t.regArray("$sends", "(Array Int Int)")
+		return intVal("(- " + sApp("select", t.lookup(env.st, "$sends"), c.S) + " " + sApp("select", t.lookup(env.callBase, "$sends"), c.S) + ")")
+	case "atomval_ptr": // atomval_ptr(p): content of the atomic.Pointer cell p points to
+		x := arg(0)
+		pre := "sync/atomic.Pointer"
+		ref := x.S
+		if x.Loc != nil {
+			pre = x.Loc.Prefix
+		}
+		t.regArray(pre+".v", "(Array Int Int)")
+		return Val{K: KRef, S: sApp("select", t.lookup(env.st, pre+".v"), ref)}
+	case "local": // local("name"): the local variable of that name (for names that clash with specification keywords)
+		nm, _ := strconv.Unquote(exprString(e.Args[0]))
+		if env.a != nil {
+			if v, ok := env.a.localByName(nm, env.st); ok {
+				return v
+			}
+		}
+		return env.fail("no local %q", nm)
+	case "lasttimerdur": // duration given to the most recent time.NewTimer call
+		t.regArray("$g:lasttimerdur", "Int")
+		return intVal(t.lookup(env.st, "$g:lasttimerdur"))
+	case "afterdur": // duration given to the last time.AfterFunc call
+		t.regArray("$g:afterdur", "Int")
+		return intVal(t.lookup(env.st, "$g:afterdur"))
+	case "afterfn":
+		t.regArray("$g:afterfn", "Int")
+		return Val{K: KFunc, S: t.lookup(env.st, "$g:afterfn")}
 	case "fired":
 		c := arg(0)
 		t.regArray("$timerfired", "(Array Int Bool)")
